@@ -76,3 +76,19 @@ let () = Reg.register "c19.recover" (fun inp out ->
   | _ -> failwith "c19.recover")
 
 let () = Reg.register "c19.nocompile" (fun _ _ -> (A "compiles", "ok"))
+
+(* the shipped recovering parsers (js with its hand-written loop, tm, test): (name valid len text) -> (status ((off end) ...)) *)
+let () = Reg.register "c19.shipped" (fun inp out ->
+  match lst inp, lst out with
+  | [_; valid; len; _], [st; errs] ->
+    let errs = Stdlib.List.map (fun e -> match lst e with [a; b] -> (get_int a, get_int b) | _ -> failwith "err") (lst errs) in
+    let l = get_int len in
+    let rec mono = function (a, _) :: (((b, _) :: _) as tl) -> a <= b && mono tl | _ -> true in
+    let verdict =
+      if atom st <> "ok" then "bad:recovering-parser-crashed-or-hung"
+      else if Stdlib.List.exists (fun (a, b) -> a < 0 || b > l || a > b) errs then "bad:error-range-outside-the-input"
+      else if not (mono errs) then "bad:error-offsets-decrease"
+      else if get_int valid = 1 && errs <> [] then "bad:error-reported-on-a-sentence"
+      else "ok" in
+    (out, verdict)
+  | _ -> failwith "c19.shipped")
